@@ -3,8 +3,8 @@
 import json,sys
 idk,first,by,what=sys.argv[1:5]
 st=sys.argv[5] if len(sys.argv)>5 else ""
-m={"id":idk,"breaks_property":idk.split('-')[0],
- "origin":"third round: independent sub-agent given the property text, a scratch worktree and one-line descriptions of the four earlier changes for this property to avoid",
+m={"id":idk,"breaks_property":__import__("os").environ.get("BREAKS",idk.split("-")[0]),
+ "origin":__import__("os").environ.get("ORIGIN","third round: independent sub-agent given the property text, a scratch worktree and one-line descriptions of the four earlier changes for this property to avoid"),
  "what":what,
  "what_i_ran":["git archive HEAD of /repo into a scratch dir","demo_test.go on the clean tree: PASS","patch applied: go build ./... ok, baseline `go test -vet=off -count=1 .` PASS, demo_test.go FAIL","./bin/vcheck run <check> (quick) against the patched scratch copy (tools/try_mutant.sh)"],
  "caught_by_quick_check_at_first_try": first=="yes","caught_by_quick_check_now":True,"caught_by":by}
